@@ -8,10 +8,14 @@ def sh(cmd, cwd, timeout=1500):
     p = subprocess.run(cmd, cwd=cwd, shell=True, capture_output=True, text=True, timeout=timeout)
     return p.returncode, (p.stdout + p.stderr)
 
+BASE = os.environ.get('SEED_BASE', '/tmp/seed')
+MUTS = tuple(os.environ.get('SEED_MUTS', 'mutA,mutB').split(','))
+
+
 def confirm(pid):
-    wt = '/tmp/seed/' + pid
+    wt = BASE + '/' + pid
     res = []
-    for mut in ('mutA', 'mutB'):
+    for mut in MUTS:
         diff = '%s/%s_%s.diff' % (wt, pid, mut)
         demo = '%s_%s_demo.py' % (pid, mut)
         meta = '%s/%s_%s_meta.json' % (wt, pid, mut)
